@@ -11,7 +11,15 @@ open Proto Coords
       psi2   srcDec srcRa psi t           -> dec ra
       rot    ra1 dec1 ra2 dec2 ra3 dec3   -> ra dec      (rotate_spherical_vector)
       reloc  sRa sDec tRa tDec rRa rDec   -> ra dec      (rotate_signal_events_on_sphere)
+      psifield <src ra,dec,...> <evt ra,dec,...> <pairs k,e,...> <floor|->   -> psi list (ERR = IndexError)
+      psf    sigma evtRa evtDec srcRa srcDec -> Gaussian PSF density
 -/
+def pairsF : List Float → List (Float × Float)
+  | a :: b :: rest => (a, b) :: pairsF rest
+  | _ => []
+def pairsN : List Nat → List (Nat × Nat)
+  | a :: b :: rest => (a, b) :: pairsN rest
+  | _ => []
 def len : Float := Gen.C19.siderealLength
 def off : Float := Gen.C19.siderealOffset
 def eps : Float := Gen.C19.poleEps
@@ -28,6 +36,11 @@ def answer (line : String) : String :=
   | ["psi2", sd, sr, p, t] => f2 (psiToDecRa (pF sd) (pF sr) (pF p) (pF t))
   | ["rot", a, b, c, d, e, f] => f2 (rotateSphericalVector (pF a) (pF b) (pF c) (pF d) (pF e) (pF f))
   | ["reloc", a, b, c, d, e, f] => f2 (relocate eps (pF a) (pF b) (pF c) (pF d) (pF e) (pF f))
+  | ["psifield", ss, es, ps, fl] =>
+      let r := psiField (pairsF (pList pF ss)) (pairsF (pList pF es)) (pairsN (pList pN ps))
+        (if fl == "-" then none else some (pF fl))
+      fListD (fun o => match o with | some x => fF x | none => "ERR") r
+  | ["psf", sg, a, b, c, d] => fF (gaussPsfPd (pF sg) (pF a) (pF b) (pF c) (pF d))
   | _ => "bad-op"
 
 def main : IO Unit := do loop (← IO.getStdin) answer
